@@ -320,7 +320,7 @@ def case_F(c):
         F.clean()
 
 
-GRAPHS = ["same-string-nested-then-own", "diamond", "diamond-direct", "util-then-a", "a-then-util", "b-includes-a", "diamond-spellings", "same-string-different-files", "three-levels-shared-leaf"]
+GRAPHS = ["gate-named-like-earlier-include", "gate-named-like-later-include", "same-string-nested-then-own", "diamond", "diamond-direct", "util-then-a", "a-then-util", "b-includes-a", "diamond-spellings", "same-string-different-files", "three-levels-shared-leaf"]
 
 
 def case_D(c):
@@ -340,6 +340,13 @@ def case_D(c):
             files = {"a.xbb": a, "b.xbb": b, "util.xbb": util}
             incs = ["a.xbb", "b.xbb"]
             items = [acall, bcall, acall] + ([ucall([9, 8], "2"), bcall] if graph == "diamond-direct" else [])
+        elif graph in ("gate-named-like-earlier-include", "gate-named-like-later-include"):
+            # stage.xbb does not include util.xbb: the operations it calls `Util` are ordinary gates of that name, whatever the
+            # file that includes stage.xbb has included before or includes afterwards
+            stage = dict(name="Stage", version="1.0", items=[("stmt", "Util", None, [], [N("1")], "none"), ("stmt", "Util", [N("0.5")], [("k", N("2"))], [N("0"), N("1")], "sq"), ("stmt", "R", None, [], [N("0")], "none")])
+            files = {"util.xbb": util, "stage.xbb": stage}
+            incs = ["util.xbb", "stage.xbb"] if graph == "gate-named-like-earlier-include" else ["stage.xbb", "util.xbb"]
+            items = [ucall([9, 8], "2"), ("stmt", "Stage", None, [], [N("4"), N("5")], "sq"), ucall([8, 9])]
         elif graph == "util-then-a":
             files = {"a.xbb": a, "util.xbb": util}
             incs = ["util.xbb", "a.xbb"]
